@@ -32,7 +32,7 @@ type c18Payload struct {
 	Entry string `json:"entry,omitempty"`
 }
 
-var c18Names = []string{strings.Repeat("d", 60) + "/gpkg-1/" + strings.Repeat("f", 70), "dir/gpkg-1/" + strings.Repeat("g", 95), "BZhang/report.doc", "xar!/readme", "wOFF/font", "\x1f\x8b.gz", "Rar!/x", "fLaC", "a.txt", "dir/", "src/main.go", "README", "ü/ö.txt", "日本語.txt", "PK\x03\x04.bin", "%PDF-1.4.pdf", "MZ", "\x7fELF", "GIF89a", "ID3", "BM", "long/" + strings.Repeat("n", 90), strings.Repeat("p/", 60) + "deep.txt", strings.Repeat("x", 100), strings.Repeat("y", 101), "portage/gpkg-1.0.3/README", "a/gpkg-1x", "gpkg-1", "x/gpkg-2", " lead", "trail ", "-dash", "#hash", "{\"a\":1}", "<html>", "name with spaces.tar"}
+var c18Names = []string{strings.Repeat("d", 60) + "/gpkg-1/" + strings.Repeat("f", 70), "dir/gpkg-1/" + strings.Repeat("g", 95), "BZhang/report.doc", "xar!/readme", "wOFF/font", "\x1f\x8b.gz", "Rar!/x", "fLaC", "a.txt", "dir/", "src/main.go", "README", "ü/ö.txt", "日本語.txt", "PK\x03\x04.bin", "%PDF-1.4.pdf", "MZ", "\x7fELF", "GIF89a", "ID3", "BM", "long/" + strings.Repeat("n", 90), strings.Repeat("p/", 60) + "deep.txt", strings.Repeat("x", 100), strings.Repeat("y", 101), "portage/gpkg-1.0.3/README", "docs/%PDF-1.7 notes.txt", "x/PK\x03\x04/y", "a/MZ", "spec %PDF-", "{\"type\":\"Feature\"}", "<svg>.txt", "<html>x", "a/gpkg-1x", "gpkg-1", "x/gpkg-2", " lead", "trail ", "-dash", "#hash", "{\"a\":1}", "<html>", "name with spaces.tar"}
 
 func c18Header(r *rand.Rand) *tar.Header {
 	h := &tar.Header{
@@ -95,6 +95,11 @@ func c18Archive(r *rand.Rand) ([]byte, string) {
 			body := make([]byte, h.Size)
 			for i := range body {
 				body[i] = byte(r.Intn(256))
+			}
+			if r.Intn(3) == 0 {
+				// the first member is itself a file of another format (its signature sits at offset 512)
+				sigs := []string{"%PDF-1.7\n", "PK\x03\x04\x14\x00", "\x89PNG\x0d\x0a\x1a\x0a", "{\"type\":\"Feature\"}", "<html><body>", "GIF89a", "\x7fELF", "MZ\x90\x00", "ustar\x0000", "Rar!\x1a\x07", "ftypisom"}
+				copy(body, sigs[r.Intn(len(sigs))])
 			}
 			w.Write(body)
 			// a second member sometimes
@@ -163,6 +168,10 @@ func c18Forward(c *fw.Ctx, t *lib.Tree, kind string, a []byte, tag string) bool 
 			}
 		}
 		if pinned && t.ChildIndex(path[1]) < t.ChildIndex(tarID) {
+			if ok, sig := exceptionJustified(t.Nodes[path[1]].MIME, lib.Header(a, lim)); !ok {
+				c.Violate("tar-not-recognised", key, fmt.Sprintf("archive written by archive/tar (%s) reported as the higher-priority format %s whose signature its leading bytes do not carry (%s); result %s; first bytes %s", tag, t.Nodes[path[1]].MIME, sig, ch, fw.Quote(a[:100], 100)), p)
+				continue
+			}
 			c.Count("exception_higher_priority_format", 1)
 			c.SetAdd("exception_formats", t.Nodes[path[1]].MIME)
 			continue
@@ -277,7 +286,7 @@ func init() {
 	fw.Register(&fw.Prop{
 		ID:    "C18",
 		Level: "exploration",
-		Rule: "archives are written by archive/tar from random headers: formats USTAR / PAX / GNU / auto, 28 member names (long, UTF-8, names that begin like higher-priority formats (PK\\x03\\x04, %PDF-, MZ, ELF, GIF89a) and like lower-priority ones (BZh, xar!, wOFF, gzip, Rar!, fLaC, ID3, BM); names containing /gpkg-1 followed by further characters), modes, uid/gid up to and beyond 2^21 (base-256 fields), sizes 0 … 2^40 (base-256 above 8 GiB), mtimes incl. > 2^33 and sub-second (PAX), all type flags with link names and device numbers, PAX records, one or two members; each is detected at limits {0, 3072, 512, len, len+1}; then for the first block EVERY position outside 148-155 x EVERY other byte value (504 x 255 = 128 520 corruptions, exhaustive per archive) must not be reported as tar; a sample of corruptions is repeated under read limits that cut inside the first block (1 … 512). " +
+		Rule: "archives are written by archive/tar from random headers: formats USTAR / PAX / GNU / auto, 28 member names (long, UTF-8, names that begin like higher-priority formats (PK\\x03\\x04, %PDF-, MZ, ELF, GIF89a) and like lower-priority ones (BZh, xar!, wOFF, gzip, Rar!, fLaC, ID3, BM); names containing /gpkg-1 followed by further characters, names that contain such signatures away from the start), member data that begins with another format's signature (PDF, zip, PNG, JSON, HTML, ELF …: it sits at offset 512), modes, uid/gid up to and beyond 2^21 (base-256 fields), sizes 0 … 2^40 (base-256 above 8 GiB), mtimes incl. > 2^33 and sub-second (PAX), all type flags with link names and device numbers, PAX records, one or two members; each is detected at limits {0, 3072, 512, len, len+1}; then for the first block EVERY position outside 148-155 x EVERY other byte value (504 x 255 = 128 520 corruptions, exhaustive per archive) must not be reported as tar; a sample of corruptions is repeated under read limits that cut inside the first block (1 … 512). " +
 			"non-trivial = an archive that is reported as tar and was put through the exhaustive corruption sweep (counted once per archive, archives are distinct by construction); plus distinct (format, type flag, has high bytes) classes.",
 		Assumptions: []string{
 			"archive/tar is the conforming writer; header combinations it refuses are not archives",
